@@ -95,7 +95,7 @@ def _witness(m, shape, names, data, tm, pre=None):
     blocks = []
     for nm, (vs, po, ks, ns, na) in zip(names, data):
         blocks.append(dict(name=''.join(chr(sym.model_value(m, ch.code)) for ch in nm.cells),
-                           variables=[sym.model_value(m, v.e) for v in vs],
+                           variables=[None if v is None else sym.model_value(m, v.e) for v in vs],
                            porosity=None if po is None else sym.model_value(m, po.e),
                            permeability=None if ks is None else [sym.model_value(m, k.e) for k in ks],
                            nseq=None if ns is None else sym.model_value(m, ns.e),
@@ -108,7 +108,9 @@ def _witness(m, shape, names, data, tm, pre=None):
     return out
 
 
-def task_shape(nblocks, nvars, por, perm, seq, timing, reset, cycles=2, toughreact=None, second=0, seed=0, freenames=False, reader='fresh'):
+def task_shape(nblocks, nvars, por, perm, seq, timing, reset, cycles=2, toughreact=None, second=0, seed=0, freenames=False, reader='fresh', absent=()):
+    # absent: indices of primary variables that are absent (None) in every block - never the last one, a trailing
+    # absent value is not kept by the reader; an absent value inside the list has to stay where it is
     # seq: False / True (both numbers) / 'nseq' / 'nadd' (only that one present)
     # reader: 'fresh' = the file is read back by a new t2incon(filename); 'used' = it is read back with read() into an
     # object that has already read another file (of the other flavour, with a block and a timing record of its own)
@@ -116,10 +118,10 @@ def task_shape(nblocks, nvars, por, perm, seq, timing, reset, cycles=2, toughrea
     T = ld.t2incons
     np_ = ld.mulgrids.np
     failures, samples, distinct = [], [], set()
-    shape = dict(nblocks=nblocks, nvars=nvars, por=por, perm=perm, seq=seq, timing=timing, reset=reset, toughreact=toughreact, freenames=freenames, reader=reader)
+    shape = dict(nblocks=nblocks, nvars=nvars, por=por, perm=perm, seq=seq, timing=timing, reset=reset, toughreact=toughreact, freenames=freenames, reader=reader, absent=list(absent))
     rkw = dict(check_blocknames=False) if freenames else {}
     tag = ('U.' if reader == 'used' else '') + ('R.' if (toughreact and not (any(perm) if isinstance(perm, (list, tuple)) else perm)) else '') + 'b%d.v%d.%s%s%s.%s%s' % (nblocks, nvars, 'P' if por else 'p', ('K' if perm else 'k') if not isinstance(perm, (list, tuple)) else 'K' + ''.join('1' if x else '0' for x in perm), ('S' if seq is True else 'Sn' if seq == 'nseq' else 'Sa') if seq else 's',
-                                   'T' if timing else 't', 'R' if reset else 'r')
+                                   'T' if timing else 't', 'R' if reset else 'r') + ('.A' + ''.join('%d' % i for i in absent) if absent else '')
 
     def h(c):
         fs.files.clear()
@@ -133,7 +135,7 @@ def task_shape(nblocks, nvars, por, perm, seq, timing, reset, cycles=2, toughrea
             for prev in names:
                 c.add(z3.Not(same_codes(print_form(codes_of(nm)), print_form(codes_of(prev)))))
             names.append(nm)
-            vs = [fit_real(c, 'x%d_%d' % (b, i), 'e', 20, 13) for i in range(nvars)]
+            vs = [None if i in absent else fit_real(c, 'x%d_%d' % (b, i), 'e', 20, 13) for i in range(nvars)]
             po = fit_real(c, 'por%d' % b, 'e', 15, 9) if por else None
             has_k = perm[b] if isinstance(perm, (list, tuple)) else perm
             ks = np_.array([fit_real(c, 'k%d_%d' % (b, i), 'e', 15, 9) for i in range(3)]) if has_k else None
@@ -255,6 +257,9 @@ def task_shape(nblocks, nvars, por, perm, seq, timing, reset, cycles=2, toughrea
             if ok:
                 for i in range(nvars):
                     got = bi.variable[i]
+                    if vs[i] is None:
+                        ob(got is None, 'variable: block %d variable %d absent stays absent, in its place' % (b, i), None)
+                        continue
                     f = isinstance(got, SReal) and (got.e == strs.rounded_value('e', 13, vs[i].e))
                     ob(f, 'variable: block %d variable %d equals the 13 printed decimals' % (b, i), None)
             if por: ob(isinstance(bi.porosity, SReal) and bi.porosity.e == strs.rounded_value('e', 9, po.e), 'porosity: block %d' % b, None)
@@ -346,6 +351,9 @@ def shapes(tier):
             # read back with read() into an object that has already read a file of the other flavour
             dict(nblocks=1, nvars=1, por=True, perm=False, seq=False, timing=True, reset=False, reader='used'),
             dict(nblocks=1, nvars=1, por=False, perm=True, seq=False, timing=True, reset=False, reader='used'),
+            # absent primary variables inside a block's list (blank fields, also a whole blank first line): they stay in place
+            dict(nblocks=1, nvars=4, por=True, perm=False, seq=False, timing=False, reset=True, absent=(0, 1)),
+            dict(nblocks=2, nvars=6, por=False, perm=False, seq=True, timing=True, reset=False, absent=(1, 4), cycles=3),
         ]
         return combos
     for nb in (0, 1, 2, 3):
@@ -358,7 +366,9 @@ def shapes(tier):
                     out.append(dict(nblocks=nb, nvars=nvars, por=por, perm=perm, seq=seq, timing=timing, reset=reset,
                                     cycles=3 if (nvars in (3, 4, 5) and nb <= 2) else 2))
     # round 4: only one sequence number present; reading back into a used object (both flavours, with / without kept timing)
-    out += [q for q in shapes('quick') if q.get('reader') == 'used' or q['seq'] in ('nseq', 'nadd')]
+    out += [q for q in shapes('quick') if q.get('reader') == 'used' or q['seq'] in ('nseq', 'nadd') or q.get('absent')]
+    out += [dict(nblocks=1, nvars=9, por=True, perm=True, seq=False, timing=False, reset=True, absent=(0, 1, 2, 3, 6)),
+            dict(nblocks=1, nvars=3, por=False, perm=False, seq=False, timing=True, reset=False, absent=(1,), reader='used')]
     out += [dict(nblocks=2, nvars=2, por=True, perm=False, seq='nadd', timing=True, reset=False),
             dict(nblocks=2, nvars=2, por=True, perm=False, seq=True, timing=True, reset=False, reader='used'),
             dict(nblocks=2, nvars=2, por=True, perm=[True, False], seq=False, timing=True, reset=False, reader='used'),
@@ -377,7 +387,7 @@ def run(tier, seed, rep):
     # long tasks first
     tasks.sort(key=lambda t: -(t[1]['nblocks'] * 10 + t[1]['nvars']))
     rep.add_results(report.run_tasks(tasks))
-    rep.bounds += ['%d shapes: blocks 0..%d, 1..12 variables (1..3 lines), porosity / permeability (TOUGHREACT) / nseq,nadd present or absent, timing absent / present x reset on / off; only one of nseq / nadd present; read back by a new object or by read() into an object that has already read a file of the other flavour (concrete one-block file with timing)' % (len(sh), max(s['nblocks'] for s in sh)),
+    rep.bounds += ['%d shapes: blocks 0..%d, 1..12 variables (1..3 lines), porosity / permeability (TOUGHREACT) / nseq,nadd present or absent, timing absent / present x reset on / off; only one of nseq / nadd present; absent (None) primary variables inside the list (never the last); read back by a new object or by read() into an object that has already read a file of the other flavour (concrete one-block file with timing)' % (len(sh), max(s['nblocks'] for s in sh)),
                    'block names: 5 symbolic characters, first three over letters/digits/blank, 4th digit or blank, 5th digit (every name the four conventions can produce), pairwise different printed forms',
                    'sumtim in [1,10) when timing is kept (exact decimal rounding model, needed to decide the header double rounding); reals: v = 0 or 1e-120 <= |v| <= 1e120 whose rendering fits the field (a value needing both a minus sign and a 3-digit exponent in 20.13e / 15.9e does not fit and is excluded); integers 0..99999']
     rep.outside += ['names with punctuation in the first three characters; a name starting +++ reads as the timing marker (not produced by any naming convention)',
